@@ -23,6 +23,8 @@ ASSUMPTIONS = [
     'schedules: lowest-source-id-first order with up to sched_deviations arbitrary deviations',
     'back-pressure cases: the first two socket sends of A after establishment accept 1, n/2 or n-1 of the n octets offered',
 ]
+MAX_PATHS = {'quick': 20000, 'thorough': 60000}
+CASE_SECONDS = {'quick': 240, 'thorough': 3000}
 SMALL_LIMIT = 30000          # real-CHUNK_SIZE cases need lengths above 10240 to be replayable
 REQUIRED_CLASSES = {'all': ['one-seg', 'multi-seg']}
 QUICK_VALIDATE = 8
@@ -43,7 +45,7 @@ def cases(tier):
     out.append(dict(na=1, nb=1, chunk='big', dev=0, kseg=2, steps=400, bp=1, rx='msg'))
     if tier == 'thorough':
         out.append(dict(na=1, nb=1, chunk='big', dev=1, kseg=2, steps=400))
-        out.append(dict(na=2, nb=0, chunk='big', dev=1, kseg=2, steps=400))
+        out.append(dict(na=2, nb=0, chunk='big', dev=1, kseg=1, steps=400))
         out.append(dict(na=1, nb=1, chunk='real', dev=0, kseg=2, steps=600))
     return out
 
